@@ -1,4 +1,47 @@
-(* placeholder until the theorems are in place *)
-From Lhasa Require Import Base Header.
-Example checksum_example : check_l0_checksum [1; 2; 255]%N 2%N = true.
-Proof. vm_compute. reflexivity. Qed.
+(* Properties_C12.v -- C12: headers failing their own checksum, CRC or length
+   rules are never returned.  Statements only; proofs in P_Intact.v, where the
+   predicate [intact] is defined independently of the parser's code: level <= 3;
+   level 0/1 checksum byte = sum of the base header mod 256 and the length
+   rules; level 2 >= 26 bytes; level 3 word size 4 and 32..1 MiB bytes; a seen
+   common-CRC field equals the CRC-16 of the raw header with those fields
+   zeroed; a file has a name, a directory (not a symlink) has a path. *)
+From Lhasa Require Import Base Generated InputStream Header BasicReader P_Intact.
+Local Open Scope N_scope.
+
+(* Soundness of the parser w.r.t. the integrity predicate, for EVERY input
+   stream state.  Contrapositive: a header whose own integrity data
+   contradicts it is never handed to the caller. *)
+Theorem returned_header_is_intact : forall mktime st h st',
+  lha_file_header_read mktime st = Ok (Some h, st') -> intact h.
+Proof. exact P_Intact.returned_header_is_intact. Qed.
+
+Theorem level_above_3_rejected : forall mktime st raw st1 lvl,
+  lha_input_stream_read st hdr_COMMON_HEADER_LEN = Ok (Some raw, st1) ->
+  nth_N raw 20 = Some lvl -> 3 < lvl ->
+  lha_file_header_read mktime st = Ok (None, st1).
+Proof. exact P_Intact.level_above_3_rejected. Qed.
+
+(* Through the basic reader: what is returned is intact ... *)
+Theorem next_file_returns_intact : forall mktime r h r',
+  lha_basic_reader_next_file mktime r = Ok (Some h, r') -> intact h.
+Proof. exact P_Intact.next_file_returns_intact. Qed.
+
+(* ... and iteration over the archive ends at the first rejected header: every
+   later call returns None again and leaves the reader (and its stream) untouched. *)
+Theorem iteration_stops : forall mktime r r',
+  lha_basic_reader_next_file mktime r = Ok (None, r') ->
+  forall n, next_file_n mktime n r' = Ok (None, r').
+Proof. exact P_Intact.iteration_stops. Qed.
+
+Theorem next_file_stops_at_rejected_header : forall mktime r st2,
+  br_curr r = None -> br_eof r = false ->
+  lha_file_header_read mktime (br_stream r) = Ok (None, st2) ->
+  exists r', lha_basic_reader_next_file mktime r = Ok (None, r') /\
+             forall n, next_file_n mktime n r' = Ok (None, r').
+Proof. exact P_Intact.next_file_stops_at_rejected_header. Qed.
+
+Print Assumptions returned_header_is_intact.
+Print Assumptions level_above_3_rejected.
+Print Assumptions next_file_returns_intact.
+Print Assumptions iteration_stops.
+Print Assumptions next_file_stops_at_rejected_header.
